@@ -163,6 +163,11 @@ type runSpec struct {
 	id   tls.ClientHelloID
 	hrr  int // 0 plain, 1 HRR group+cookie, 2 HRR cookie only, 3 HRR group only
 	nops int
+	// resumption runs: the client Config (with a primed session cache) and the server Config that issued the ticket;
+	// only calls that leave the extension list in place (the session extensions are bound to the loaded session)
+	cfg       *tls.Config
+	serverCfg *tls.Config
+	resume    bool
 }
 
 var pki = hs.SharedPKI()
@@ -225,7 +230,11 @@ func runOne(c *vh.Ctx, r *rand.Rand, rs runSpec) {
 		}
 		defer conn.Close()
 		conn.SetDeadline(time.Now().Add(5 * time.Second))
-		sc := tls.VerifScriptedServer(conn, pki.ServerConfig(), script)
+		scfg := rs.serverCfg
+		if scfg == nil {
+			scfg = pki.ServerConfig()
+		}
+		sc := tls.VerifScriptedServer(conn, scfg, script)
 		if sc.Handshake() == nil {
 			sc.Close()
 		}
@@ -238,8 +247,11 @@ func runOne(c *vh.Ctx, r *rand.Rand, rs runSpec) {
 	rc := &hs.RecConn{Conn: raw}
 	defer rc.Close()
 	rc.SetDeadline(time.Now().Add(5 * time.Second))
-	cfg := &tls.Config{ServerName: hs.ServerName, InsecureSkipVerify: true, OmitEmptyPsk: true,
-		Rand: seedReader{rand.New(rand.NewSource(r.Int63()))}}
+	cfg := rs.cfg
+	if cfg == nil {
+		cfg = &tls.Config{ServerName: hs.ServerName, InsecureSkipVerify: true, OmitEmptyPsk: true,
+			Rand: seedReader{rand.New(rand.NewSource(r.Int63()))}}
+	}
 	uc := tls.UClient(rc, cfg, rs.id)
 	if err := uc.BuildHandshakeState(); err != nil {
 		c.Count("first-build-error")
@@ -288,7 +300,11 @@ func runOne(c *vh.Ctx, r *rand.Rand, rs runSpec) {
 	}
 	for k := 0; k < rs.nops; k++ {
 		n := len(uc.Extensions)
-		switch r.Intn(9) {
+		opk := r.Intn(9)
+		if rs.resume && (opk == 1 || opk == 4 || opk == 5) {
+			opk = []int{0, 2, 3}[opk%3] // no SetSNI (it is the cache key), no insert / remove
+		}
+		switch opk {
 		case 0:
 			rnd := make([]byte, []int{32, 32, 32, 32, 31, 33, 0}[r.Intn(7)])
 			r.Read(rnd)
@@ -418,7 +434,14 @@ func runOne(c *vh.Ctx, r *rand.Rand, rs runSpec) {
 			}
 			fresh = false
 		default:
-			if err := uc.BuildHandshakeState(); err != nil {
+			var err error
+			if pn, pv := vh.Recover(func() { err = uc.BuildHandshakeState() }); pn {
+				c.Fail("panic/rebuild/"+strings.SplitN(key, "/", 2)[0], "BuildHandshakeState panicked after documented edits", strings.Join(descr, "; "), fmt.Sprint(pv), "nil")
+				rc.Close()
+				<-done
+				return
+			}
+			if err != nil {
 				c.Fail("rebuild-error/"+key, "BuildHandshakeState failed after documented edits", strings.Join(descr, "; "), err.Error(), "nil")
 				rc.Close()
 				<-done
@@ -437,10 +460,38 @@ func runOne(c *vh.Ctx, r *rand.Rand, rs runSpec) {
 		}
 	}
 	rawBefore := append([]byte(nil), uc.HandshakeState.Hello.Raw...)
-	herr := uc.Handshake()
+	var herr error
+	if pn, pv := vh.Recover(func() { herr = uc.Handshake() }); pn {
+		c.Fail("panic/handshake/"+strings.SplitN(key, "/", 2)[0], "Handshake panicked after documented edits", strings.Join(descr, "; "), fmt.Sprint(pv), "ClientHello or error")
+		rc.Close()
+		<-done
+		return
+	}
 	rawAfter := append([]byte(nil), uc.HandshakeState.Hello.Raw...)
 	extsAfter := uc.Extensions
 	didHRR := tls.VerifDidHRR(uc.Conn)
+	if rs.resume {
+		offered := len(h.PskIdentities) > 0 || len(h.SessionTicket) > 0
+		if offered {
+			c.Count("resumption-offered")
+		}
+		if herr == nil && uc.ConnectionState().DidResume {
+			c.Count("resumed")
+		}
+		// the binders are recomputed over every re-marshalled hello (crypto, not modelled): the model gets the
+		// session-bound extension objects as they are after the handshake and must reproduce every other byte
+		if renderable && len(extsAfter) == len(exts) {
+			for i, e := range extsAfter {
+				if _, isTicket := e.(*tls.SessionTicketExtension); isPSK(e) || isTicket {
+					if t, ok := extTerm(e); ok {
+						exts[i] = t
+					} else {
+						renderable = false
+					}
+				}
+			}
+		}
+	}
 	uc.Close()
 	<-done
 	hellos := hs.ClientHellosFromStream(rc.Written())
@@ -586,4 +637,5 @@ func run(c *vh.Ctx) {
 			runOne(c, r, rs)
 		}
 	}
+	runResumption(c, ps, maxOps)
 }
